@@ -111,7 +111,13 @@ def check(case) -> Result:
     stopped_case['history'] = hist
     if st_.get('rerun'):
         # the same StopCondition object serves a second epoch: run (stop), reset, re-apply initial conditions, run (stop)
-        stopped_case['history'] = stopped_case['history'] + [{'op': 'reset', 'reinit': True}] + \
+        reset = {'op': 'reset', 'reinit': True}
+        if st_.get('rerun_units') and st_.get('exact_tie') is None:
+            # the same initial conditions, written in other units for the second epoch
+            pu, su = st_['rerun_units']
+            reset['init'] = {'pos': [float(U.convert_exact('AngularPosition', *base['init']['pos'], pu)), pu],
+                             'speed': [float(U.convert_exact('AngularSpeed', *base['init']['speed'], su)), su]}
+        stopped_case['history'] = stopped_case['history'] + [reset] + \
             [dict(o, new_solver=bool(st_.get('new_solver'))) for o in stopped_case['history']]
     try:
         bs, ts, es = S.simulate(stopped_case)
@@ -124,9 +130,10 @@ def check(case) -> Result:
     s = ts[len(base['history']) - 1] if len(ts) >= len(base['history']) else ts[-1]
     if st_.get('rerun') and len(ts) >= 3:
         s2 = ts[-1]
-        if s2.n != s.n or not np.array_equal(s2.t, s.t) or any(
+        same_numbers = not (st_.get('rerun_units') and st_.get('exact_tie') is None)
+        if s2.n != s.n or not np.array_equal(s2.t, s.t) or (same_numbers and any(
                 not np.array_equal(s2.vars[i][v], s.vars[i][v]) for i in range(mdl.n) for v in s.vars[i]
-                if s.vars[i][v] is not None and s2.vars[i].get(v) is not None):
+                if s.vars[i][v] is not None and s2.vars[i].get(v) is not None)):
             res.bad('C16/rerun-stops-elsewhere', f'stop when {sensor}[{target}] {op} {thr_pair}: first epoch recorded '
                     f'{s.n} instants, the rerun after reset (same StopCondition object) {s2.n}')
     desc = f'stop when {sensor}[{target}] {op} {thr_pair} (SI {thr_si!r}); un-stopped run has {u.n} instants'
@@ -190,6 +197,8 @@ def s_case(draw, max_len=5, max_steps=40):
     if draw(st.integers(0, 3)) == 0:
         spec['rerun'] = True
         spec['new_solver'] = draw(st.booleans())
+        if draw(st.booleans()) and 'exact_tie' not in spec:       # an exact tie is exact in one unit only
+            spec['rerun_units'] = [draw(G.s_unit('AngularPosition')), draw(G.s_unit('AngularSpeed'))]
     elif draw(st.integers(0, 2)) == 0:
         # run, then a continued run, and only the continuation receives the stop condition (which may already hold at
         # the junction: it must then stop the continuation at its first computed instant)
